@@ -2,9 +2,12 @@ package main
 
 import (
 	"bytes"
+	"compress/gzip"
 	"encoding/json"
 	"errors"
 	"fmt"
+	"io"
+	"regexp"
 	"strings"
 
 	"github.com/fabiolb/fabio/config"
@@ -25,7 +28,11 @@ type bodyIn struct {
 	RLen     int         `json:"rlen"`
 	RSeed    uint64      `json:"rseed"`
 	RChunked bool        `json:"rchunked"`
-	Strip    bool        `json:"strip"` // route with strip/prepend/host options: must not matter for bodies
+	Strip    bool        `json:"strip"`   // route with strip/prepend/host options: must not matter for bodies
+	Interim  []interim   `json:"interim"` // informational responses the upstream sends before the final one
+	Expect   bool        `json:"expect"`  // the client announces its body with "Expect: 100-continue"
+	Gzip     bool        `json:"gzip"`    // proxy.gzip.contenttype configured (^text/): the gzip handler sits in the chain
+	AE       string      `json:"ae"`      // the client's Accept-Encoding ("" = none)
 }
 
 type bodyOut struct {
@@ -42,6 +49,51 @@ type bodyOut struct {
 	GotSHA   string `json:"got_sha"`
 	RepHdr   []kv   `json:"rep_hdr"` // end-to-end headers the upstream set
 	GotHdr   []kv   `json:"got_hdr"` // end-to-end headers the client saw
+	// informational responses (100 Continue left out: each hop produces its own): what the upstream sent and
+	// what the client saw, codes and end-to-end headers
+	SentInterim []interimOut `json:"sent_interim"`
+	GotInterim  []interimOut `json:"got_interim"`
+	Decoded     bool         `json:"decoded"` // the reply arrived gzip-encoded by fabio and was decoded for the comparison
+}
+
+type interimOut struct {
+	Code int  `json:"code"`
+	Hdr  []kv `json:"hdr"`
+}
+
+var gzipTypes = regexp.MustCompile("^text/")
+
+func groupHdr(hs [][2]string) []kv {
+	var want []kv
+	for _, h := range hs {
+		k := canonical(h[0])
+		found := false
+		for i := range want {
+			if want[i].K == k {
+				want[i].V = append(want[i].V, h[1])
+				found = true
+			}
+		}
+		if !found {
+			want = append(want, kv{k, []string{h[1]}})
+		}
+	}
+	sortKV(want)
+	return want
+}
+
+func dropNames(h []kv, names ...string) []kv {
+	out := []kv{}
+	for _, x := range h {
+		skip := false
+		for _, n := range names {
+			skip = skip || x.K == n
+		}
+		if !skip {
+			out = append(out, x)
+		}
+	}
+	return out
 }
 
 func seeded(seed uint64, n int) []byte {
@@ -111,6 +163,22 @@ func runBody(raw json.RawMessage) (interface{}, error) {
 		}
 		rh = keep
 	}
+	if len(in.Interim) > 4 {
+		return nil, errors.New("too many informational responses")
+	}
+	for _, im := range in.Interim {
+		if im.Code < 102 || im.Code > 199 {
+			return nil, errors.New("not an informational status the upstream handler can send") // 100: net/http's own; 101: switches protocols
+		}
+		for _, h := range im.Hdr {
+			if !validToken(h[0]) || !validValue(h[1]) || respHop[canonical(h[0])] || strings.EqualFold(h[0], "date") || strings.EqualFold(h[0], "vary") {
+				return nil, errors.New("interim header cannot be sent")
+			}
+		}
+	}
+	if in.AE != "" && (!validValue(in.AE) || strings.ContainsAny(in.AE, "\r\n")) {
+		return nil, errors.New("accept-encoding cannot be sent")
+	}
 	body := seeded(in.ReqSeed, in.ReqLen)
 	rbody := seeded(in.RSeed, in.RLen)
 	if noBody(in.Method, in.RStatus) {
@@ -118,6 +186,12 @@ func runBody(raw json.RawMessage) (interface{}, error) {
 	}
 	var b bytes.Buffer
 	fmt.Fprintf(&b, "%s /b/x HTTP/1.1\r\nHost: example.com\r\nContent-Type: application/octet-stream\r\n", in.Method)
+	if in.AE != "" {
+		fmt.Fprintf(&b, "Accept-Encoding: %s\r\n", in.AE)
+	}
+	if in.Expect && len(body) > 0 {
+		b.WriteString("Expect: 100-continue\r\n") // the body follows without waiting, as a client may
+	}
 	if len(in.Chunks) > 0 {
 		b.WriteString("Transfer-Encoding: chunked\r\n\r\n")
 		rest := body
@@ -144,13 +218,17 @@ func runBody(raw json.RawMessage) (interface{}, error) {
 	if in.Strip {
 		cmd += ` opts "strip=/b prepend=/q host=dst"`
 	}
-	rep := &upReply{Status: in.RStatus, Hdr: rh, Body: rbody, Flush: in.RChunked, NoWrite: noBody(in.Method, in.RStatus)}
+	rep := &upReply{Interim: in.Interim, Status: in.RStatus, Hdr: rh, Body: rbody, Flush: in.RChunked, NoWrite: noBody(in.Method, in.RStatus)}
+	cfg := config.Proxy{}
+	if in.Gzip {
+		cfg.GZIPContentTypes = gzipTypes
+	}
 	// A transfer that breaks off (seen rarely, only with many harness processes running side by side) is
 	// tried again; an error that persists is reported.
 	var resp *clientResp
 	var err error
 	for attempt := 0; attempt < 3; attempt++ {
-		if err = e.install(config.Proxy{}, cmd, rep); err != nil {
+		if err = e.install(cfg, cmd, rep); err != nil {
 			return nil, err
 		}
 		if resp, err = e.roundTrip(in.Method, b.Bytes(), false); err == nil {
@@ -161,24 +239,43 @@ func runBody(raw json.RawMessage) (interface{}, error) {
 		return nil, err
 	}
 	hits, up := e.seen()
-	out := bodyOut{Hits: hits, SentLen: len(body), SentSHA: sha(body), Status: resp.Status, RepLen: len(rbody), RepSHA: sha(rbody),
-		GotLen: resp.BodyLen, GotSHA: resp.BodySHA, GotHdr: e2e(resp.Hdr)}
-	var want []kv
-	for _, h := range rh {
-		k := canonical(h[0])
-		found := false
-		for i := range want {
-			if want[i].K == k {
-				want[i].V = append(want[i].V, h[1])
-				found = true
+	got := resp.Raw
+	decoded := false
+	gotHdr := e2e(resp.Hdr)
+	wantHdr := e2e(groupHdr(rh))
+	if in.Gzip {
+		// compression is C17's; here it must not change status, headers (apart from its own) or content
+		for _, x := range resp.Hdr {
+			if x.K == "Content-Encoding" && len(x.V) == 1 && x.V[0] == "gzip" && len(got) > 0 {
+				zr, err := gzip.NewReader(bytes.NewReader(got))
+				if err != nil {
+					return nil, fmt.Errorf("gunzip: %v", err)
+				}
+				if got, err = io.ReadAll(zr); err != nil {
+					return nil, fmt.Errorf("gunzip: %v", err)
+				}
+				decoded = true
 			}
 		}
-		if !found {
-			want = append(want, kv{k, []string{h[1]}})
-		}
+		gotHdr = dropNames(gotHdr, "Vary", "Content-Encoding")
+		wantHdr = dropNames(wantHdr, "Vary", "Content-Encoding")
 	}
-	sortKV(want)
-	out.RepHdr = e2e(want)
+	out := bodyOut{Hits: hits, SentLen: len(body), SentSHA: sha(body), Status: resp.Status, RepLen: len(rbody), RepSHA: sha(rbody),
+		GotLen: len(got), GotSHA: sha(got), GotHdr: gotHdr, RepHdr: wantHdr, Decoded: decoded,
+		SentInterim: []interimOut{}, GotInterim: []interimOut{}}
+	for _, im := range in.Interim {
+		out.SentInterim = append(out.SentInterim, interimOut{im.Code, e2e(groupHdr(im.Hdr))})
+	}
+	for i, code := range resp.Interim {
+		if code == 100 {
+			continue
+		}
+		h := e2e(resp.IHdr[i])
+		if in.Gzip {
+			h = dropNames(h, "Vary")
+		}
+		out.GotInterim = append(out.GotInterim, interimOut{code, h})
+	}
 	if up != nil {
 		out.UpMethod, out.UpLen, out.UpSHA = up.Method, up.BodyLen, up.BodySHA
 	}
@@ -187,7 +284,7 @@ func runBody(raw json.RawMessage) (interface{}, error) {
 
 func init() {
 	methods := []string{"GET", "POST", "POST", "PUT", "PATCH", "DELETE", "HEAD", "OPTIONS", "FOO"}
-	statuses := []int{200, 200, 200, 201, 202, 204, 206, 301, 302, 304, 400, 401, 403, 404, 418, 429, 500, 502, 503, 599, 299, 999}
+	statuses := []int{200, 200, 201, 202, 204, 206, 301, 302, 304, 400, 401, 403, 404, 404, 418, 429, 500, 502, 503, 503, 599, 299, 999}
 	hn := []string{"X-Custom", "Content-Type", "Set-Cookie", "Set-Cookie", "Cache-Control", "Etag", "Location", "X-A", "Vary", "Server", "Www-Authenticate"}
 	hv := []string{"1", "text/plain", "a=b; Path=/", "c=d", "no-store", "W/\"x\"", "http://UPSTREAM/x", "/rel", "Accept-Encoding", "up/1", ""}
 	sizes := []int{0, 0, 1, 2, 100, 4095, 4096, 4097, 32 << 10, 65535, 65536, 65537, 1 << 20, 2 << 20}
@@ -202,6 +299,18 @@ func init() {
 			bodyIn{Method: "GET", RStatus: 304, RLen: 10, RHdr: [][2]string{{"Etag", "W/\"x\""}}},
 			bodyIn{Method: "DELETE", ReqLen: 3, RStatus: 999, RLen: 3, Strip: true},
 			bodyIn{Method: "GET", RStatus: 200, RLen: 100, RHdr: [][2]string{{"Set-Cookie", "a=b"}, {"Set-Cookie", "c=d"}, {"X-Custom", ""}}},
+			// informational responses before the final status (the final status must reach the client whatever came before)
+			bodyIn{Method: "GET", RStatus: 404, RLen: 7, Interim: []interim{{Code: 103, Hdr: [][2]string{{"Link", "</style.css>; rel=preload; as=style"}}}}},
+			bodyIn{Method: "GET", RStatus: 503, RLen: 7, Interim: []interim{{Code: 103, Hdr: [][2]string{{"Link", "</style.css>; rel=preload; as=style"}}}, {Code: 102}, {Code: 103, Hdr: [][2]string{{"Link", "</style.css>; rel=preload; as=style"}}}}},
+			bodyIn{Method: "POST", ReqLen: 10, RStatus: 201, RLen: 0, Interim: []interim{{Code: 102}}, Expect: true},
+			bodyIn{Method: "GET", RStatus: 204, Interim: []interim{{Code: 103, Hdr: [][2]string{{"Link", "</style.css>; rel=preload; as=style"}}}}},
+			bodyIn{Method: "GET", RStatus: 304, Interim: []interim{{Code: 103, Hdr: [][2]string{{"Link", "</style.css>; rel=preload; as=style"}}}}},
+			bodyIn{Method: "HEAD", RStatus: 500, RLen: 5, Interim: []interim{{Code: 103, Hdr: [][2]string{{"Link", "</style.css>; rel=preload; as=style"}}}}},
+			bodyIn{Method: "GET", RStatus: 301, RLen: 20, RHdr: [][2]string{{"Location", "/rel"}}, Interim: []interim{{Code: 199}}},
+			bodyIn{Method: "GET", RStatus: 200, RLen: 2000, Interim: []interim{{Code: 103, Hdr: [][2]string{{"Link", "</style.css>; rel=preload; as=style"}}}}, Gzip: true, AE: "gzip", RHdr: [][2]string{{"Content-Type", "text/plain"}}},
+			bodyIn{Method: "GET", RStatus: 400, RLen: 2000, Interim: []interim{{Code: 103, Hdr: [][2]string{{"Link", "</style.css>; rel=preload; as=style"}}}}, Gzip: true, RHdr: [][2]string{{"Content-Type", "text/plain"}}},
+			bodyIn{Method: "GET", RStatus: 404, RLen: 2000, Gzip: true, AE: "gzip", RHdr: [][2]string{{"Content-Type", "text/html"}}},
+			bodyIn{Method: "PUT", ReqLen: 70000, Chunks: []int{4096}, RStatus: 500, RLen: 70000, RChunked: true, Expect: true, Interim: []interim{{Code: 103, Hdr: [][2]string{{"Link", "</style.css>; rel=preload; as=style"}}}}},
 		},
 		Gen: func(r *hx.Rand, i int) interface{} {
 			in := bodyIn{Method: r.Pick(methods), ReqSeed: r.U64() % 1000, RSeed: r.U64() % 1000, RHdr: [][2]string{}, Chunks: []int{}}
@@ -229,6 +338,25 @@ func init() {
 			in.Strip = r.Chance(1, 3)
 			for k := r.Intn(4); k > 0; k-- {
 				in.RHdr = append(in.RHdr, [2]string{r.Pick(hn), r.Pick(hv)})
+			}
+			in.Interim = []interim{}
+			if r.Chance(2, 5) {
+				for k := r.Range(1, 3); k > 0; k-- {
+					im := interim{Code: []int{103, 103, 102, 110, 199}[r.Intn(5)], Hdr: [][2]string{}}
+					if im.Code == 103 || r.Chance(1, 4) {
+						im.Hdr = append(im.Hdr, [2]string{"Link", r.Pick([]string{"</style.css>; rel=preload; as=style", "</a.js>; rel=preload"})})
+						if r.Chance(1, 3) {
+							im.Hdr = append(im.Hdr, [2]string{r.Pick([]string{"Link", "X-Hint"}), "</b.js>; rel=preload"})
+						}
+					}
+					in.Interim = append(in.Interim, im)
+				}
+			}
+			in.Expect = in.ReqLen > 0 && r.Chance(1, 4)
+			in.Gzip = r.Chance(1, 3)
+			in.AE = r.Pick([]string{"", "", "gzip", "gzip", "identity", "br, gzip;q=0.5", "gzip;q=0"})
+			if in.Gzip && r.Chance(1, 2) {
+				in.RHdr = append(in.RHdr, [2]string{"Content-Type", r.Pick([]string{"text/plain", "text/html; charset=utf-8"})})
 			}
 			return in
 		},
